@@ -179,3 +179,31 @@ func c11Escrow(scenario int) {
 		ndAssert(recd.Equal(loss), "record-per-backer-is-what-that-backer-lost")
 	}
 }
+
+// VerifC11_escrow_unreported: EscrowReporterStake for a report the reporter never made - no stake snapshot under
+// exactly (query id, reporter, block) although the reporter has snapshots of other reports (another query, or
+// another block, earlier or later) - fails and takes nothing.
+func VerifC11_escrow_unreported() {
+	bank := newVBank(false)
+	sk := newVStaking(bank)
+	rep := ndAddr("reporter")
+	val := sdk.ValAddress(ndAddr("val"))
+	sk.vals = append(sk.vals, stakingtypes.Validator{OperatorAddress: val.String(), Status: stakingtypes.Bonded, Tokens: math.NewInt(50000000000), DelegatorShares: math.LegacyNewDec(50000000000)})
+	sk.dels = append(sk.dels, stakingtypes.Delegation{DelegatorAddress: sdk.AccAddress(rep).String(), ValidatorAddress: val.String(), Shares: math.LegacyNewDec(7000000)})
+	ctx, k := vRepKeeper(sk, bank)
+	qid, otherQid := ndHash("queryid"), ndHash("otherQueryid")
+	h, otherH := ndUint64("height"), ndUint64("otherHeight")
+	ndAssume(h < 1<<40)
+	ndAssume(otherH < 1<<40)
+	// the real report differs from the disputed one in the query or in the block (or both)
+	ndAssume(ndOr(string(qid) != string(otherQid), h != otherH))
+	origins := []*types.TokenOriginInfo{{DelegatorAddress: rep, ValidatorAddress: val, Amount: math.NewInt(7000000)}}
+	must2(k.Report.Set(ctx, collections.Join(otherQid, collections.Join([]byte(rep), otherH)), types.DelegationsAmounts{TokenOrigins: origins, Total: math.NewInt(7000000)}))
+	bank.set(vbMod(stakingtypes.BondedPoolName), math.NewInt(50000000000))
+	err := k.EscrowReporterStake(ctx, rep, 7, h, math.NewInt(70000), qid, ndHash("hash"))
+	ndReach("called")
+	ndAssert(err != nil, "a-report-that-was-never-made-cannot-be-slashed")
+	ndAssert(bank.nCalls == 0 && sk.nUnbond == 0, "nothing-is-taken-for-a-report-that-was-never-made")
+	_, rerr := k.DisputedDelegationAmounts.Get(ctx, ndHash("hash"))
+	ndAssert(rerr != nil, "no-record-for-a-report-that-was-never-made")
+}
